@@ -4,6 +4,7 @@ package main
 // body, check ensures, collect obligations; then discharge with the solvers.
 
 import (
+	"os"
 	"fmt"
 	"go/types"
 	"sort"
@@ -149,11 +150,11 @@ func (eng *Engine) discharge(frs []*FuncResult, sv *Solvers, only func(name stri
 		c := j.fr.Exec.c
 		o := j.or.O
 		if o.Cover {
-			reach := o.Reach
-			for _, q := range j.fr.Exec.coverDrop {
-				reach = c.Subst(reach, q, c.True(), map[int]*Term{})
+			ts, _ := j.fr.Exec.instantiateLoopFrames([]*Term{c.Polarize(o.Reach, true, map[[2]int]*Term{})})
+			for i := range ts {
+				ts[i] = c.AbstractForalls(ts[i])
 			}
-			j.or.Query = c.Query([]*Term{reach}, false, nil)
+			j.or.Query = c.Query(ts, false, nil)
 		} else if isTrue(o.Cond) {
 			j.or.Status = "proved"
 			j.or.Solver = "trivial"
@@ -162,7 +163,13 @@ func (eng *Engine) discharge(frs []*FuncResult, sv *Solvers, only func(name stri
 			for _, in := range j.fr.Exec.inputs {
 				mts = append(mts, leafTerms(in.T)...)
 			}
-			j.or.Query = c.Query([]*Term{o.Reach, c.Not(o.Cond)}, true, mts)
+			pm := map[[2]int]*Term{}
+			reachP, condP := o.Reach, o.Cond
+			if os.Getenv("SHVC_NOPOL") == "" {
+				reachP, condP = c.Polarize(o.Reach, true, pm), c.Polarize(o.Cond, false, pm)
+			}
+			ts, insts := j.fr.Exec.instantiateLoopFrames([]*Term{reachP, c.Not(condP)})
+			j.or.Query = c.Query(append(ts, insts...), true, mts)
 		}
 	}
 	sem := make(chan struct{}, sv.Parallel)
